@@ -385,7 +385,7 @@ objects = []
 for cls, _ in registry.seeded_classes():
     for data, obj in registry.accepted_seeds(cls)[:2]:
         objects.append((registry.class_name(cls) + ':%d:' % len(objects) + data.hex()[:24], obj))
-if len(sys.argv) > 3 and sys.argv[3] == 'encoders':
+if len(sys.argv) > 3 and sys.argv[3].startswith('encoders'):
     # class-level encoder state: every second Serializable class gets a text encoder of its own that marks its
     # output; the others inherit Serializable's.  A swap that is not undone, or undone on the wrong class, changes
     # what later objects look like - and that depends on the order.
@@ -404,7 +404,7 @@ if len(sys.argv) > 3 and sys.argv[3] == 'encoders':
         return found
     named = sorted(subclasses(Serializable, set()), key=lambda item: (item.__module__, item.__qualname__))
     for index, cls in enumerate(named):
-        if index % 2 == 0 and 'post_text_encoder' not in cls.__dict__:
+        if index % 2 == int(sys.argv[3][-1]) and 'post_text_encoder' not in cls.__dict__:
             cls.post_text_encoder = Marking('<%d>' % index)
 if order == 'reverse':
     objects.reverse()
@@ -430,7 +430,7 @@ def orders_and_hash_seeds():
     """every seed object serialised in three orders under three hash seeds: identical, well-formed output"""
     problems = []
     verif = registry.VERIF
-    for mode in ('plain', 'encoders'):
+    for mode in ('plain', 'encoders0', 'encoders1'):
         runs = {}
         for order, hashseed in (('forward', '0'), ('reverse', '1'), ('shuffle', '2'), ('forward', '3')):
             env = dict(os.environ, PYTHONHASHSEED=hashseed)
@@ -453,7 +453,7 @@ def orders_and_hash_seeds():
                 if runs[other].get(name) != text:
                     problems.append('%s differs between (%s, PYTHONHASHSEED=%s) and (%s, PYTHONHASHSEED=%s)%s' % (
                         (name,) + keys[0] + other + (' with class-level text encoders installed'
-                                                     if mode == 'encoders' else '',)))
+                                                     if mode != 'plain' else '',)))
                     break
     return problems[:60]
 
@@ -543,5 +543,5 @@ def shards(tier, seed):
     out.append(Shard(MOD, 'orders_and_hash_seeds', 'orders_and_hash_seeds', {}, kind='concrete',
                      bounds='up to 2 accepted vectors of every seeded class, serialised (real json.dumps/json.loads, '
                             'as_markdown) in 3 orders under 4 PYTHONHASHSEED values in fresh interpreters, once as '
-                            'is and once with marking text encoders installed on every second Serializable class'))
+                            'is and twice with marking text encoders installed on every second Serializable class (even / odd)'))
     return out
